@@ -90,10 +90,18 @@ class DataReader(object):
         last = 0
         for match in fullline_pattern.finditer(piece):
             last = match.end(0)
+            # Only bytes up to the End-Of-Data marker belong to the message.
+            if self.EOD is None:
+                self.size += len(match.group(0))
             self._append_line(match.group(0))
             self.handle_finished_line()
         after_match = piece[last:]
+        if self.EOD is None:
+            self.size += len(after_match)
         self._append_line(after_match)
+
+    def too_big(self):
+        return bool(self.max_size and self.size > self.max_size)
 
     def recv_piece(self):
         if self.EOD is not None:
@@ -103,12 +111,9 @@ class DataReader(object):
         if piece == b'':
             raise ConnectionLost()
 
-        self.size += len(piece)
-        if self.max_size and self.size > self.max_size:
-            self.EOD = self.i
-            raise MessageTooBig()
-
         self.add_lines(piece)
+        if self.too_big():
+            raise MessageTooBig()
         return self.EOD is None
 
     def return_all(self):
@@ -129,9 +134,22 @@ class DataReader(object):
 
         """
         self.from_recv_buffer()
-        while self.recv_piece():
-            pass
-        return self.return_all()
+        too_big = self.too_big()
+        while self.EOD is None:
+            try:
+                self.recv_piece()
+            except MessageTooBig:
+                # Keep reading up to the End-Of-Data marker so that the rest
+                # of the message is not mistaken for commands, but forget the
+                # lines that are already complete.
+                too_big = True
+                if self.EOD is None:
+                    del self.lines[:self.i]
+                    self.i = 0
+        data = self.return_all()
+        if too_big:
+            raise MessageTooBig()
+        return data
 
 
 # vim:et:fdm=marker:sts=4:sw=4:ts=4
